@@ -180,19 +180,47 @@ fn lax_typed(loc: &mut Local, what: &str, r: Result<Option<LOpen<u8, u8>>, Strin
     }
 }
 
+/// A lax result of well-typed, label-consistent arguments only ever asks to identify equally labelled nodes: it
+/// can be strictified, and the strict diagram is well-formed and has the promised type.
+fn lax_strictifies(loc: &mut Local, what: &str, r: &Option<L>, x: Result<Option<LOpen<u8, u8>>, String>, src: &[u8], tgt: &[u8], case: &Value) {
+    let (Some(p), Ok(Some(x))) = (r, x) else { return };
+    loc.trans(1);
+    if !p.label_consistent() {
+        loc.violation(&format!("lax-{}:asks-to-identify-differently-labelled-nodes", what), json!({"op": what, "case": case, "got": p}));
+        return;
+    }
+    match catch(|| x.to_strict()).and_then(|s| crate::onvec::decode_open(&s)) {
+        Err(m) => loc.violation(&format!("lax-{}:result-cannot-be-strictified", what), json!({"op": what, "case": case, "why": m})),
+        Ok(s) => {
+            if s.source_type() != src || s.target_type() != tgt {
+                loc.violation(&format!("lax-{}:strictified-result-has-wrong-type", what), json!({"op": what, "case": case, "got": s}));
+            }
+        }
+    }
+}
+
 pub fn check_lax_pair(f: &L, g: &L, loc: &mut Local) {
     let case = json!({"f": f, "g": g});
     let (a, b, c, d) = (f.open.source_type(), f.open.target_type(), g.open.source_type(), g.open.target_type());
     let (lf, lg) = (build_lax(f), build_lax(g));
-    let r = lax_typed(loc, "compose", catch(|| Arrow::compose(&lf, &lg)), &a, &d, &case);
+    let consistent = f.label_consistent() && g.label_consistent();
+    let x = catch(|| Arrow::compose(&lf, &lg));
+    let r = lax_typed(loc, "compose", x.clone(), &a, &d, &case);
     if r.is_some() != (b == c) {
         loc.violation("lax-compose:definedness", json!({"case": case}));
+    }
+    if consistent {
+        lax_strictifies(loc, "compose", &r, x, &a, &d, &case);
     }
     let r2 = lax_typed(loc, "lax_compose", catch(|| lf.lax_compose(&lg)), &a, &d, &case);
     if r2.is_some() != (b.len() == c.len()) {
         loc.violation("lax_compose:definedness", json!({"case": case}));
     }
-    lax_typed(loc, "tensor", catch(|| Some(Monoidal::tensor(&lf, &lg))), &cat(&a, &c), &cat(&b, &d), &case);
+    let xt = catch(|| Some(Monoidal::tensor(&lf, &lg)));
+    let rt = lax_typed(loc, "tensor", xt.clone(), &cat(&a, &c), &cat(&b, &d), &case);
+    if consistent {
+        lax_strictifies(loc, "tensor", &rt, xt, &cat(&a, &c), &cat(&b, &d), &case);
+    }
     if b == c {
         loc.nontrivial();
     }
